@@ -7,6 +7,7 @@ Expression spec (nested JSON lists)
     ["adj", e, lazy]                         qp.adjoint(e, lazy=lazy)
     ["pow", e, z, lazy]                      qp.pow(e, z, lazy=lazy)        (z int or float; the JSON type is preserved)
     ["ctrl", e, control, values, work]       qp.ctrl(e, control=control, control_values=values, work_wires=work or None)
+    ["cctrl", e, control, values]            qp.ops.op_math.Controlled(e, control, control_values=values)   (class constructor)
     ["prod", e1, e2, ...] ["sum", e1, ...]   qp.prod / qp.sum
     ["sprod", [re, im], e]                   qp.s_prod(c, e)
     ["exp", e, [re, im]]                     qp.exp(e, c)
@@ -93,6 +94,8 @@ def _build(e, qp):
         return _build(e[1], qp) ** e[2]
     if k == "ctrl":
         return qp.ctrl(_build(e[1], qp), control=list(e[2]), control_values=list(e[3]), work_wires=(list(e[4]) or None))
+    if k == "cctrl":  # the Controlled class called directly (qp.ctrl dispatches to specialised classes instead)
+        return qp.ops.op_math.Controlled(_build(e[1], qp), list(e[2]), control_values=list(e[3]))
     if k == "prod":
         return qp.prod(*[_build(x, qp) for x in e[1:]])
     if k == "sum":
@@ -168,7 +171,7 @@ def evaluate(e):
         if not b < PI - 1e-6:
             raise Skip("fractional-power:eigenphase-on-branch-cut")
         return principal_power(M, z), W, b * abs(z)
-    if k == "ctrl":
+    if k in ("ctrl", "cctrl"):
         M, W, b = evaluate(e[1])
         cw, cv = list(e[2]), list(e[3])
         if set(cw) & set(W):
@@ -218,7 +221,7 @@ def shape(e, depth=2):
     return f"{k}({','.join(shape(x, depth - 1) for x in kids)})"
 
 
-_KINDS = {"L", "adj", "pow", "**", "ctrl", "prod", "sum", "@", "+", "-", "neg", "sprod", "*", "exp", "cob"}
+_KINDS = {"L", "adj", "pow", "**", "ctrl", "cctrl", "prod", "sum", "@", "+", "-", "neg", "sprod", "*", "exp", "cob"}
 
 
 def depth(e):
